@@ -274,6 +274,49 @@ pub fn start_watchdog() {
     });
 }
 
+//------------ Progress file (for the supervising parent process) ----------------
+//
+// A stack overflow or an abort inside the code under test cannot be caught in
+// process. `rpki-sim check` therefore runs as a child of a supervising parent
+// (main.rs); every worker notes the index of the run it is about to execute in
+// a small file, so that the parent knows which runs were in flight when the
+// child died and can re-run exactly those, one by one, in fresh processes.
+
+static PROGRESS: std::sync::OnceLock<Option<std::fs::File>> = std::sync::OnceLock::new();
+
+pub fn progress_note(slot: usize, idx: Option<u64>) {
+    use std::os::unix::fs::FileExt;
+    let file = PROGRESS.get_or_init(|| {
+        std::env::var("VERIF_PROGRESS").ok().and_then(|p| std::fs::OpenOptions::new().write(true).create(true).truncate(false).open(p).ok())
+    });
+    if let Some(f) = file {
+        let v = idx.map(|i| i + 1).unwrap_or(0);
+        let _ = f.write_at(&v.to_le_bytes(), 8 * slot as u64);
+    }
+}
+
+/// Writes a replay file that regenerates run `idx` from the seed.
+pub fn write_seed_replay(s: &dyn Scenario, seed: u64, tier: Tier, idx: u64, class: &str, key: &str, detail: &str) -> PathBuf {
+    let dir = verif_dir();
+    let _ = std::fs::create_dir_all(dir.join("replays"));
+    let path = dir.join("replays").join(format!("{}-{}-{}.json", s.id(), seed, idx));
+    let doc = json!({
+        "property": s.id(),
+        "scenario": s.name(),
+        "seed": seed,
+        "tier": tier.name(),
+        "run_index": idx,
+        "sweep_index": match kind_of(s, tier, idx) { RunKind::Sweep(i) => json!(i), RunKind::Random => Value::Null },
+        "from_seed": true,
+        "tape": Value::Null,
+        "violation": { "class": class, "key": key, "detail": detail },
+        "log": [],
+        "note": "not minimised: the run brings the process down or cannot be interrupted; replay regenerates the tape from (seed, run index)",
+    });
+    let _ = std::fs::write(&path, serde_json::to_string_pretty(&doc).unwrap());
+    path
+}
+
 pub fn scenario_salt(s: &dyn Scenario) -> u64 {
     crate::common::fnv(s.id().as_bytes())
 }
@@ -366,8 +409,9 @@ pub fn check(s: &dyn Scenario, opts: &CheckOpts) -> i32 {
         fallback,
     };
     std::thread::scope(|scope| {
-        for _ in 0..opts.jobs {
-            scope.spawn(|| {
+        for worker in 0..opts.jobs {
+            let (next, stop_at, harness_err, findings, bitmap, found, totals, meta_for) = (&next, &stop_at, &harness_err, &findings, &bitmap, &found, &totals, &meta_for);
+            scope.spawn(move || {
                 let mut local = Totals::default();
                 watch_set_meta(meta_for(None), sweep);
                 loop {
@@ -381,6 +425,7 @@ pub fn check(s: &dyn Scenario, opts: &CheckOpts) -> i32 {
                     let kind = kind_of(s, opts.tier, idx);
                     let tape = Tape::generate(tape::mix(&[opts.seed, salt, idx]));
                     watch_set_run_index(Some(idx));
+                    progress_note(worker, Some(idx));
                     match run_guarded(s, kind, opts.tier, tape, false) {
                         Err(msg) => {
                             *harness_err.lock().unwrap() = Some(format!("run {}: {}", idx, msg));
